@@ -5,19 +5,19 @@ package sunlight
 
 //@ pure func be40(s bytes) int = s[0]*4294967296 + s[1]*16777216 + s[2]*65536 + s[3]*256 + s[4]
 
-//@ func sunlight.readUint40 nopanic props C10
+//@ func sunlight.readUint40 nopanic props C08 C10 C12
 //@   requires s != nil && out != nil
 //@   ensures [C10] ok: ret <==> len(old(*s)) >= 5
 //@   ensures [C10] value: ret ==> *out == be40(old(*s)) && *s == old(*s)[5:]
 //@   ensures [C10] range: ret ==> 0 <= *out && *out < 1099511627776
 //@   ensures [C10] fail: !ret ==> *out == old(*out) && *s == old(*s)
 
-//@ func sunlight.NewRFC6962Verifier props C11
+//@ func sunlight.NewRFC6962Verifier props C11 C12 C18 C20
 //@   defines ret1 == nil ==> ret0 != nil && isRFCVerifier(ret0, name, key)
 
 // ---- C11: the note verifier's accept decision, as a function of (msg, sig) only
 //@ pure func rfcSigAccepted(name string, key Ref, msg bytes, sig bytes) bool = ckptParses(string(msg)) && ckptOf(string(msg)).Origin == name && ckptOf(string(msg)).Extension == "" && len(sig) >= 12 && sig[8] == 4 && len(sig) == 12 + be16(sig[10:12]) && ctAccepts(key, sthInput(0, ckptOf(string(msg)).N, be64(sig), ckptOf(string(msg)).Hash), sig[8], sig[9], sig[12:])
-//@ func sunlight.NewRFC6962Verifier$1 nopanic props C11 C12
+//@ func sunlight.NewRFC6962Verifier$1 nopanic props C08 C11 C12 C18 C20
 //@   returns [C11,C12] accepts-only-what-the-independent-verifier-accepts: ret ==> rfcSigAccepted(name, key__1, msg, sig)
 //@   returns [C11] accepts-every-well-formed-verifying-signature: rfcSigAccepted(name, key__1, msg, sig) ==> ret
 
@@ -28,30 +28,30 @@ package sunlight
 //@ assume func sunlight.verifier.verify#elem params msg sig
 //@   modifies gVerifyFnCalls, gVerifyFnRet
 //@   ensures gVerifyFnCalls == old(gVerifyFnCalls) + 1 && gVerifyFnRet == ret
-//@ func sunlight.(*verifier).Verify props C11 C12
+//@ func sunlight.(*verifier).Verify props C08 C11 C12 C18 C20
 //@   requires v != nil
 //@   init gVerifyFnCalls == 0
 //@   call sunlight.verifier.verify#elem requires [C11,C12] passes-the-inputs-through: c_msg == msg && c_sig == sig
 //@   ensures [C11,C12] answer-is-one-run-of-the-stored-decision-procedure: gVerifyFnCalls == 1 && ret == gVerifyFnRet
 
 //@ pure func sigTimestamp(sig note.Signature) int
-//@ func sunlight.RFC6962SignatureTimestamp nopanic props C11 C20
+//@ func sunlight.RFC6962SignatureTimestamp nopanic props C01 C08 C11 C20
 //@   defines ret1 == nil ==> ret0 == sigTimestamp(sig)
 //@   returns [C11] timestamp-is-the-eight-bytes-after-the-key-hash: ret1 == nil ==> (len(b64dec(sig.Base64)) >= 12 && ret0 == be64(b64dec(sig.Base64)[4:12]) && ret0 >= 0)
 
-//@ func sunlight.NewRFC6962InjectedSigner props C11
+//@ func sunlight.NewRFC6962InjectedSigner props C01 C11
 //@   returns [C11] signature-embeds-the-timestamp: (ret1 == nil && timestamp >= 0) ==> (typeof(ret0) == typeid("*sunlight.injectedSigner") && cast(ret0, "*sunlight.injectedSigner").sig == u64(timestamp) + sig)
 //@   returns [C11] verifier-is-the-logs-own: ret1 == nil ==> isRFCVerifier(cast(ret0, "*sunlight.injectedSigner").v, name, key)
 
-//@ func sunlight.(*injectedSigner).Sign nopanic props C11
+//@ func sunlight.(*injectedSigner).Sign nopanic props C01 C11
 //@   requires s != nil
 //@   returns [C11] refuses-signatures-that-do-not-verify: ret1 == nil ==> (verifierAccepts(s.v, msg, s.sig) && ret0 == s.sig)
 
-//@ func sunlight.ReadTileLeaf nopanic props C08 C10 C12
+//@ func sunlight.ReadTileLeaf nopanic props C04 C08 C10 C12
 //@   ensures [C10,C12] same-parse-as-the-strict-reader: ret2 == nil ==> ret0 != nil && *ret0 == parsedLeaf(tile) && ret1 == leafRest(tile) && len(ret1) <= len(tile)
 //@   ensures [C10,C12] refuses-archival-leaves: ret2 == nil ==> (ret0 != nil && !ret0.RFC6962ArchivalLeaf)
 //@   ensures [C10,C12] parsed-entries-are-encodable: ret2 == nil ==> (len(ret0.Certificate) < 16777216 && 0 <= ret0.LeafIndex && ret0.LeafIndex < 1099511627776 && ret0.Timestamp >= 0)
-//@ func sunlight.(*LogEntry).MerkleTreeLeaf nopanic props C08 C10 C12
+//@ func sunlight.(*LogEntry).MerkleTreeLeaf nopanic props C02 C04 C08 C09 C10 C12
 //@   defines ret == mtlOf(*e)
 //@   panics-unless [C12] encodable: e != nil && len(e.Certificate) < 16777216 && (e.RFC6962ArchivalLeaf || (0 <= e.LeafIndex && e.LeafIndex < 1099511627776))
 //@   returns [C12] returns-only-for-encodable-entries: len(e.Certificate) < 16777216 && (e.RFC6962ArchivalLeaf || (0 <= e.LeafIndex && e.LeafIndex < 1099511627776))
@@ -63,7 +63,7 @@ package sunlight
 //@ pure func extBytes(e sunlight.LogEntry) bytes = ite(e.RFC6962ArchivalLeaf, u16(0), u16(8) + marshalExt(e.LeafIndex))
 //@ pure func mtlBody(e sunlight.LogEntry) bytes = ite(e.IsPrecert, u8(0) + u8(0) + u64(e.Timestamp) + u16(1) + e.IssuerKeyHash + u24(len(e.Certificate)) + e.Certificate, u8(0) + u8(0) + u64(e.Timestamp) + u16(0) + u24(len(e.Certificate)) + e.Certificate)
 //@ pure func mtlSpec(e sunlight.LogEntry) bytes = mtlBody(e) + extBytes(e)
-//@ func sunlight.addExtensions props C10 C12
+//@ func sunlight.addExtensions props C04 C10 C12
 //@   modifies b.gout, b.gerr
 //@   ensures [C10,C12] error-is-sticky: old(b.gerr) ==> b.gerr
 //@   ensures [C10,C12] unencodable-index-is-an-error: (!e.RFC6962ArchivalLeaf && (e.LeafIndex < 0 || e.LeafIndex >= 1099511627776)) ==> b.gerr
@@ -74,18 +74,18 @@ package sunlight
 //@ pure func u40(v int) bytes = supd(supd(supd(supd(supd(zeros(5), 0, (v / 4294967296) % 256), 1, (v / 16777216) % 256), 2, (v / 65536) % 256), 3, (v / 256) % 256), 4, v % 256)
 //@ pure func canonicalExt(x bytes) bool = len(x) == 8 && x[0] == 0 && x[1] == 0 && x[2] == 5
 
-//@ func sunlight.addUint40 props C10 C12
+//@ func sunlight.addUint40 props C04 C10 C12
 //@   requires b != nil && 0 <= v
 //@   modifies b.gout
 //@   ensures [C10,C12] appends-five-big-endian-bytes: b.gout == old(b.gout) + u40(v)
 
 //@ pure func marshalExt(idx int) bytes = u8(0) + u16(5) + u40(idx)
-//@ func sunlight.MarshalExtensions nopanic props C10 C12
+//@ func sunlight.MarshalExtensions nopanic props C02 C04 C09 C10 C12
 //@   ensures [C10,C12] exact-bytes: (0 <= e.LeafIndex && e.LeafIndex < 1099511627776) ==> ret0 == marshalExt(e.LeafIndex)
 //@   ensures [C10] refuses-out-of-range: (e.LeafIndex < 0 || e.LeafIndex >= 1099511627776) ==> ret1 != nil
 //@   ensures [C10] canonical-encoding: (0 <= e.LeafIndex && e.LeafIndex < 1099511627776) ==> (ret1 == nil && canonicalExt(ret0) && be40(ret0[3:8]) == e.LeafIndex)
 
-//@ func sunlight.ParseExtensions nopanic props C10
+//@ func sunlight.ParseExtensions nopanic props C10 C12
 //@   invariant "for !b.Empty()" canonical-first: canonicalExt(extensions) ==> b == extensions
 //@   ensures [C10] decodes-canonical-encoding: canonicalExt(extensions) ==> (ret1 == nil && ret0.LeafIndex == be40(extensions[3:8]))
 //@   ensures [C10] index-in-range: ret1 == nil ==> (0 <= ret0.LeafIndex && ret0.LeafIndex < 1099511627776)
@@ -97,14 +97,14 @@ package sunlight
 //   [u24-prefixed pre-certificate]  u16-prefixed fingerprints
 //@ pure func tileLeafHead(e sunlight.LogEntry) bytes = ite(e.IsPrecert, u64(e.Timestamp) + u16(1) + e.IssuerKeyHash + u24(len(e.Certificate)) + e.Certificate, u64(e.Timestamp) + u16(0) + u24(len(e.Certificate)) + e.Certificate)
 //@ pure func tileLeafTail(e sunlight.LogEntry, fps bytes) bytes = ite(e.IsPrecert, u24(len(e.PreCertificate)) + e.PreCertificate + u16(len(fps)) + fps, u16(len(fps)) + fps)
-//@ func sunlight.AppendTileLeaf props C04 C10
+//@ func sunlight.AppendTileLeaf props C04 C08 C10
 //@   requires e != nil
 //@   invariant "range e.ChainFingerprints" fingerprints-appended-in-order: rangeindex < len(e.ChainFingerprints) && len(b.gout) == 32 * (rangeindex + 1) && !b.gerr
 //@   call cryptobyte.(*Builder).AddUint16LengthPrefixed bind fpBytes = child.gout
 //@   returns [C04,C10] tile-leaf-layout-x509: (!e.IsPrecert && e.Timestamp >= 0 && len(e.Certificate) < 16777216 && len(e.ChainFingerprints) < 2048 && (e.RFC6962ArchivalLeaf || (0 <= e.LeafIndex && e.LeafIndex < 1099511627776))) ==> (ret == t + tileLeafHead(*e) + extBytes(*e) + tileLeafTail(*e, fpBytes) && len(fpBytes) == 32 * len(e.ChainFingerprints))
 //@   returns [C04,C10] tile-leaf-layout-precert: (e.IsPrecert && e.Timestamp >= 0 && len(e.Certificate) < 16777216 && len(e.PreCertificate) < 16777216 && len(e.ChainFingerprints) < 2048 && (e.RFC6962ArchivalLeaf || (0 <= e.LeafIndex && e.LeafIndex < 1099511627776))) ==> (ret == t + tileLeafHead(*e) + extBytes(*e) + tileLeafTail(*e, fpBytes) && len(fpBytes) == 32 * len(e.ChainFingerprints))
 
-//@ func sunlight.readTileLeaf nopanic props C10 C12
+//@ func sunlight.readTileLeaf nopanic props C04 C08 C10 C12
 //@   call cryptobyte.(*String).ReadUint16LengthPrefixed bind ext0 = *c_out when c_out == &extensions
 //@   call cryptobyte.(*String).ReadUint64 bind tile0 = old(*c_recv)
 //@   invariant "for !fingerprints.Empty()" fingerprints-progress: len(fingerprints) >= 0
@@ -117,10 +117,10 @@ package sunlight
 //@   ensures [C10,C12] parsed-entries-are-encodable: ret2 == nil ==> (len(ret0.Certificate) < 16777216 && 0 <= ret0.LeafIndex && ret0.LeafIndex < 1099511627776 && ret0.Timestamp >= 0)
 //@   defines ret2 == nil ==> *ret0 == parsedLeaf(tile) && ret1 == leafRest(tile)
 
-//@ func sunlight.cutEntry nopanic props C12
+//@ func sunlight.cutEntry nopanic props C10 C12
 //@   returns [C12] hash-covers-the-entry-that-is-cut: ret3 == nil ==> (ret1 == recordHash(mtlOf(parsedLeaf(tile))) && ret2 == leafRest(tile) && len(ret2) <= len(tile) && ret0 == tile[0:len(tile) - len(ret2)])
 
-//@ func sunlight.ParseTilePath props C10 C19
+//@ func sunlight.ParseTilePath props C04 C10 C18 C19
 //@   call tlog.ParseTilePath requires [C10] prefix-exactly-replaced: (c_path == "tile/8/data/" + rest__1 && path == "tile/names/" + rest__1) || (c_path == "tile/8/" + rest__2 && path == "tile/" + rest__2)
 //@   returns [C10] names-tiles-are-level-minus-two: (ret1 == nil && hasPrefix(path, "tile/names/")) ==> ret0.L == -2
 //@   returns [C10] accepts-only-the-static-ct-spellings: ret1 == nil ==> (hasPrefix(path, "tile/names/") || hasPrefix(path, "tile/"))
@@ -134,7 +134,7 @@ package sunlight
 //@   ensures (ret1 == nil) == tlogParses(path)
 //@   ensures ret1 == nil ==> ret0 == tlogParse(path)
 
-//@ func sunlight.TilePath props C10
+//@ func sunlight.TilePath props C04 C10 C18 C19
 //@   returns [C10] names-path: old(t).L == -2 ==> ret == "tile/names/" + trimPrefix(tlogTilePath(tileWithL(old(t), -1)), "tile/8/data/")
 //@   returns [C10] other-path: old(t).L != -2 ==> ret == "tile/" + trimPrefix(tlogTilePath(old(t)), "tile/8/")
 //@ pure func tlogTilePath(t tlog.Tile) string
